@@ -306,6 +306,9 @@ pub struct CtlInner {
 #[derive(Default)]
 pub struct Ctl {
     pub inner: Mutex<CtlInner>,
+    /// Observers called when a given task arrives at `txn.start.pinned`, i.e. at the instant it
+    /// has pinned its version (there is no await between the pin and that gate).
+    pin_hooks: Mutex<Vec<(tokio::task::Id, Box<dyn FnMut() + Send>)>>,
 }
 
 impl Ctl {
@@ -313,6 +316,12 @@ impl Ctl {
         let c = Arc::new(Ctl::default());
         risinglight::verif::set_controller(Some(c.clone()));
         c
+    }
+    pub fn watch_pin(&self, task: tokio::task::Id, f: Box<dyn FnMut() + Send>) {
+        self.pin_hooks.lock().unwrap().push((task, f));
+    }
+    pub fn unwatch_pin(&self, task: tokio::task::Id) {
+        self.pin_hooks.lock().unwrap().retain(|(t, _)| *t != task);
     }
     pub fn with<R>(&self, f: impl FnOnce(&mut CtlInner) -> R) -> R {
         f(&mut self.inner.lock().unwrap())
@@ -364,6 +373,15 @@ impl Ctl {
 
 impl Controller for Ctl {
     fn gate(&self, site: &'static str) -> Option<GateFuture> {
+        if site == "txn.start.pinned" {
+            if let Some(me) = tokio::task::try_id() {
+                for (t, f) in self.pin_hooks.lock().unwrap().iter_mut() {
+                    if *t == me {
+                        f();
+                    }
+                }
+            }
+        }
         let mut c = self.inner.lock().unwrap();
         *c.gate_hits.entry(site).or_default() += 1;
         if !c.on || !c.sites.contains(&site) {
